@@ -403,24 +403,29 @@ fn gen_robust(thorough: bool, rng: &mut Rng, out: &mut dyn FnMut(String), enum_k
         let scr: Vec<i64> = { let q = rng.perm(n); q.iter().map(|&j| (j % 101) as i64).collect() };
         let (a_dup, a_scr) = (lane_ty(ty, s, &dup, 1), lane_ty(ty, s, &scr, 1));
         let heavy = n > 2000;
-        if heavy && !thorough {
+        if heavy {
             if rank == 1 {
                 out(format!("tsort {ty}:b {a_dup} none e:Quicksort")); out(format!("tsort {ty}:b {a_scr} 0 e:Mergesort")); out(format!("tsort {ty}:b {a_dup} -1 e:Heapsort"));
                 out(format!("targsort {ty}:b {a_dup} none e:Mergesort"));
                 out(format!("targmax {ty}:b {a_dup} none none")); out(format!("targmin {ty}:b {a_scr} -1 true"));
                 out(format!("tunique {ty}:b {a_scr} none")); out(format!("tunique {ty}:b {a_dup} 0"));
+                if thorough { out(format!("tsort {ty}:b {a_scr} none e:Stable")); out(format!("targsort {ty}:b {a_scr} 0 e:Heapsort")); out(format!("targmax {ty}:b {a_scr} 0 true")); out(format!("targmin {ty}:b {a_dup} none false")); }
             } else {
                 out(format!("tsort {ty}:b {a_dup} 0 e:Stable"));
                 out(format!("targsort {ty}:b {a_dup} 1 e:Heapsort"));
                 out(format!("targmin {ty}:b {a_scr} -1 true"));
                 out(format!("tunique {ty}:b {a_dup} none"));
+                if thorough {
+                    out(format!("tsort {ty}:b {a_scr} -1 e:Quicksort")); out(format!("tsort {ty}:b {a_dup} 1 e:Mergesort")); out(format!("tsort {ty}:b {a_scr} -2 e:Heapsort"));
+                    out(format!("targsort {ty}:b {a_scr} -2 e:Quicksort")); out(format!("targmax {ty}:b {a_dup} 0 none")); out(format!("targmax {ty}:b {a_scr} 1 false")); out(format!("tunique {ty}:b {a_dup} 0"));
+                }
             }
             continue;
         }
         // quick tier: shapes of rank >= 3 take each axis in one spelling (alternating), shapes above 1000 elements two kinds per axis
         let mid = n > 1000 && !thorough;
         let mut axes: Vec<String> = vec!["none".into()];
-        for k in 0..rank { if rank <= 2 || thorough { axes.push(k.to_string()); axes.push((k - rank).to_string()); } else { axes.push(if (k as usize + si) % 2 == 0 { k.to_string() } else { (k - rank).to_string() }); } }
+        for k in 0..rank { if (rank <= 2 || thorough) && !(heavy && rank >= 2) { axes.push(k.to_string()); axes.push((k - rank).to_string()); } else { axes.push(if (k as usize + si) % 2 == 0 { k.to_string() } else { (k - rank).to_string() }); } }
         for (ai, ax) in axes.iter().enumerate() {
             let ks: Vec<String> = if heavy || mid { vec![enum_kinds[(si + ai) % 4].clone(), enum_kinds[(si + ai + 2) % 4].clone()] } else { enum_kinds.to_vec() };
             for k in &ks { out(format!("tsort {ty}:b {a_dup} {ax} {k}")); }
@@ -438,12 +443,14 @@ fn gen_robust(thorough: bool, rng: &mut Rng, out: &mut dyn FnMut(String), enum_k
         out(format!("targsort {ty}:r {a_dup} -1 o:{}", hex("STABLE")));
     }
     // lanes longer than 4096 with repeated extreme values: first position of the largest / smallest, distinct values.
-    // quick: one placement pattern per element type (i64, u8, f64); thorough: every pattern x every type, and 5000-element lanes
+    // quick: one placement pattern per element type (i64, u8, f64); thorough: every pattern and a 5000-element lane for i64, two patterns for u8 / f64 / i8
     let ext: [(&str, i64, i64, i64, i64); 4] = [("i64", i64::MIN, i64::MAX, -1000, 1000), ("u8", 0, 255, 1, 254), ("f64", -(1i64 << 53), 1i64 << 53, -50, 50), ("i8", -128, 127, -127, 126)];
     for (ei, (ty, lo, hi, mlo, mhi)) in ext.iter().enumerate() {
         if !thorough && ei == 3 { continue; }
         for (pi, n) in [(0usize, 4100usize), (1, 4100), (2, 4100), (3, 5000)] {
             if !thorough && pi != [1usize, 2, 0][ei] { continue; }
+            if pi == 3 && ei != 0 { continue; }
+            if thorough && ei != 0 && pi != [1usize, 2, 0, 1][ei] && pi != [2usize, 0, 1, 0][ei] { continue; }
             let mut v: Vec<i64> = (0..n).map(|_| rng.range(*mlo, *mhi)).collect();
             let at: Vec<usize> = match pi { 0 => vec![n - 1], 1 => vec![0, n / 2, n - 1], 2 => vec![4097, 4098, n - 2], _ => vec![17, 4096, 4999] };
             for (j, &p) in at.iter().enumerate() { v[p] = *hi; let q = (p + n - 7 - j) % n; if !at.contains(&q) { v[q] = *lo; } }
@@ -452,8 +459,9 @@ fn gen_robust(thorough: bool, rng: &mut Rng, out: &mut dyn FnMut(String), enum_k
             out(format!("targmax {ty}:b {a} none {kd}")); out(format!("targmin {ty}:b {a} none {kd}"));
             out(format!("tunique {ty}:b {a} none"));
             out(format!("tsort {ty}:b {a} none e:Quicksort"));
-            if thorough || ei == 0 { out(format!("targmax {ty}:b {a} 0 {kd}")); out(format!("targmin {ty}:b {a} -1 {kd}")); out(format!("tsort {ty}:b {a} none e:Stable")); }
-            if thorough { out(format!("tsort {ty}:b {a} none e:Mergesort")); out(format!("tsort {ty}:b {a} none e:Heapsort")); out(format!("targsort {ty}:b {a} none e:Mergesort")); }
+            if thorough || ei == 0 { out(format!("targmax {ty}:b {a} 0 {kd}")); out(format!("targmin {ty}:b {a} -1 {kd}")); }
+            if ei == 0 || (thorough && pi == 2) { out(format!("tsort {ty}:b {a} none e:Stable")); }
+            if thorough { out(format!("tsort {ty}:b {a} none e:Mergesort")); out(format!("targsort {ty}:b {a} none e:Mergesort")); if pi == 1 { out(format!("tsort {ty}:b {a} none e:Heapsort")); } }
         }
         // one value only, 4100 times (for f64: zeros of both signs)
         if thorough || ei == 1 || ei == 2 {
